@@ -458,3 +458,19 @@ func VHNewWipeFixture(kinds []int) *VHFixture {
 	w.syncClocks()
 	return &VHFixture{Repo: w.r, Alice: w.alice.Id(), Bob: w.bob.Id(), w: w}
 }
+
+// VHNewPagingFixture: alice, bob and n local bugs by bob, the first of which has extra
+// comments after its creation.
+func VHNewPagingFixture(n, extra int) *VHFixture {
+	w := vhNewWorld()
+	for i := 0; i < n; i++ {
+		e := 0
+		if i == 0 {
+			e = extra
+		}
+		id, h := w.storeBug(i, w.bob, fmt.Sprintf("t%d", i), e)
+		w.r.SetRef("refs/bugs/"+id.String(), h)
+	}
+	w.syncClocks()
+	return &VHFixture{Repo: w.r, Alice: w.alice.Id(), Bob: w.bob.Id(), w: w}
+}
